@@ -3,62 +3,23 @@ package main
 import (
 	"fmt"
 
-	"github.com/thanos-community/promql-engine/verifshim"
+	"verif/harness/core"
+	"verif/harness/gen"
 )
 
 func main() {
-	verifshim.SetControlled(true)
-	outcomes := map[string]int{}
-	var explore func(devs map[int]int, from int, depth int)
-	execs := 0
-	explore = func(devs map[int]int, from int, depth int) {
-		var got []int
-		ch := make(chan int)
-		done := make(chan struct{})
-		res := verifshim.Run(verifshim.RunOpts{Devs: devs, EventStep: -1}, func() {
-			for p := 0; p < 2; p++ {
-				p := p
-				verifshim.Go(func() {
-					verifshim.Send(ch, 10+p)
-					verifshim.Send(ch, 20+p)
-				})
-			}
-			verifshim.Go(func() {
-				for i := 0; i < 4; i++ {
-					c0 := verifshim.RecvCase(ch)
-					c1 := verifshim.RecvCase(done)
-					switch verifshim.Select(false, c0, c1) {
-					case 0:
-						got = append(got, c0.Val)
-					}
-				}
-				verifshim.Close(done)
-			})
-			verifshim.Recv(done)
-		})
-		execs++
-		outcomes[fmt.Sprint(got, res.Deadlock, res.Blocked, res.Unsupp)]++
-		if depth == 0 {
-			return
-		}
-		for i := from; i < len(res.Trace); i++ {
-			for alt := 1; alt < int(res.Trace[i].NAlt); alt++ {
-				d := map[int]int{}
-				for k, v := range devs {
-					d[k] = v
-				}
-				d[i] = alt
-				explore(d, i+1, depth-1)
-			}
-		}
+	cs := &core.Case{Q: `stdvar(a or b)`, Data: gen.Dataset("D1"), W: core.Range(10000, 30000, 3), O: core.Opts{Optimizers: "none", Fallback: true}}
+	st, _ := core.BuildStore(cs.Data)
+	for i := 0; i < 3; i++ {
+		r := core.RunRef(cs, st)
+		fmt.Println("ref     ", r.Series[0].Points)
 	}
-	explore(map[int]int{}, 0, 3)
-	fmt.Println("executions", execs)
-	for k, v := range outcomes {
-		fmt.Println(v, k)
+	for i := 0; i < 3; i++ {
+		o := core.RunEngine(cs, st)
+		fmt.Println("fallback", o.IsPromQuery, o.Res.Series[0].Points)
 	}
-	// a deadlock: send with no receiver
-	ch := make(chan int)
-	res := verifshim.Run(verifshim.RunOpts{EventStep: -1}, func() { verifshim.Send(ch, 1) })
-	fmt.Println("deadlock detected:", res.Deadlock, res.BlockedOps)
+	for i := 0; i < 3; i++ {
+		r := core.RunRef(cs, st)
+		fmt.Println("ref     ", r.Series[0].Points)
+	}
 }
